@@ -311,8 +311,13 @@ def _topo_wrap(run, P):
            construct=norm(last),
            why="each ordered statement is wrapped (loops, guard) and appended once, in order")
     rets = [s_ for s_ in f.node.body if isinstance(s_, ast.Return)]
-    ok = len(rets) == 1 and m_[1] is not None and has(
-        "simplify_ast(Block(*V_blk))", rets[0], {"V_blk": m_[1]["V_blk"]})
+    ok = False
+    if len(rets) == 1 and m_[1] is not None:
+        # simplify_ast(Block(*<block>), <whatever else the simplifier is given>)
+        for x in ast.walk(rets[0]):
+            if isinstance(x, ast.Call) and dotted(x.func) == "simplify_ast" and x.args \
+                    and has("Block(*V_blk)", x.args[0], {"V_blk": m_[1]["V_blk"]}):
+                ok = True
     run.ob("C05.wrap", f, rets[0] if rets else f.node, ok,
            construct=norm(rets[0]) if rets else "?",
            why="children in traversal order")
